@@ -898,7 +898,7 @@ func DrawFallback(t *rapid.T) (*Node, string) {
 		body = Grp(KNcg, body)
 	}
 	kind := rapid.SampledFrom([]string{"lookahead", "neg-lookahead", "lookbehind", "neg-lookbehind", "backreference",
-		"forward-backreference", "named-backreference", "named-group"}).Draw(t, "fallbackKind")
+		"forward-backreference", "named-backreference", "named-group", "backreference-two-digits"}).Draw(t, "fallbackKind")
 	var core *Node
 	switch kind {
 	case "lookahead":
@@ -913,6 +913,26 @@ func DrawFallback(t *rapid.T) (*Node, string) {
 		core = Cat(Grp(KGrp, body), &Node{K: KBref, Min: 1})
 	case "forward-backreference":
 		core = Cat(&Node{K: KBref, Min: 1}, Grp(KGrp, body))
+	case "backreference-two-digits":
+		// ten or more groups and a reference to one of the groups 10.. (\10 is a back-reference here, the
+		// same text is a legacy octal escape in a pattern with fewer groups)
+		n := rapid.IntRange(10, 13).Draw(t, "groups")
+		var parts []*Node
+		for i := 0; i < n; i++ {
+			g := Lit(rune('a' + i%3))
+			if i == 0 {
+				g = body
+			}
+			parts = append(parts, Grp(KGrp, g))
+		}
+		ref := &Node{K: KBref, Min: rapid.IntRange(10, n).Draw(t, "ref")}
+		if rapid.IntRange(0, 3).Draw(t, "refFirst") == 0 {
+			parts = append([]*Node{ref}, parts...)
+		} else {
+			parts = append(parts, ref)
+		}
+		core = Cat(parts...)
+		return core, kind
 	case "named-backreference":
 		name := rapid.SampledFrom([]string{"n", "name", "x1", "_a", "G2"}).Draw(t, "groupName")
 		if rapid.Bool().Draw(t, "refFirst") {
